@@ -467,6 +467,6 @@ META = {
              "pixels - that is how the tolerance is defined, the statement makes it explicit).  Irrational scales under the 1e-10 "
              "shear tolerance are outside the executable model.  The model follows the code after the repair of the '> stol' test "
              "(witness in corpus/C10)."),
-    "technique": "Coq proof over hand-written Gallina model + exact differential correspondence (vm_compute) against numpy/rasterio + exact pixel comparison search",
+    "technique": "Coq proof over hand-written Gallina model + exact differential correspondence (vm_compute) against numpy/rasterio + exact pixel comparison search + leaf functions regenerated from source by py2v on every run and proved equal to the model (source_is_model theorem)",
     "design_ref": "DESIGN.md section 5, C10",
 }
